@@ -102,7 +102,7 @@ def snap(x, ctx):
 
 def first_diff(a, b, path=""):
     if type(a) is not type(b):
-        return f"{path}: type"
+        return f"{path}: {a!r} -> {b!r}"[:200]
     if isinstance(a, list):
         if len(a) != len(b):
             return f"{path}: length {len(a)} -> {len(b)}"
@@ -1708,6 +1708,25 @@ ORDER = ["decompose", "pcq", "cut_gates", "partition_problem", "generate", "reco
 CURRENT = {"decompose": "chk_dq_current", "pcq": "chk_pcq_current", "cut_gates": "chk_cut_gates_current"}
 
 
+_T5 = " * bool * outcome * bool * "
+CASE_TYPES = {
+    "chk_weights": "budget * outcome * bool", "chk_device": "budget * outcome * bool",
+    "chk_settings": "budget * option budget * outcome * bool", "chk_from_instruction": "gate_desc * outcome * bool",
+    "chk_theta": "bool * outcome * bool",
+    "chk_pcq": "pcq_in" + _T5 + "list bool", "chk_pcq_current": "pcq_in" + _T5 + "list bool",
+    "chk_cut_gates": "cg_in" + _T5 + "list bool", "chk_cut_gates_current": "cg_in" + _T5 + "list bool",
+    "chk_partition_problem": "pp_in * outcome * bool", "chk_find_cuts": "fc_in * outcome * bool",
+    "chk_generate": "gen_in * outcome * bool", "chk_reconstruct": "rec_in * outcome * bool",
+    "chk_qpdbasis": "list nat * nat * outcome * bool", "chk_set_coeffs": "nat * nat * outcome * bool",
+    "chk_set_basis_id": "nat * option Z * outcome * bool", "chk_q1gate": "nat * nat * Z * option Z * outcome * bool",
+    "chk_q2gate": "nat * nat * option Z * outcome * bool",
+    "chk_dq": "dq_in" + _T5 + "list (option nat)", "chk_dq_current": "dq_in" + _T5 + "list (option nat)",
+    "chk_separate": "sep_in * outcome * bool", "chk_expand": "nat * list nat * list nat * outcome * bool",
+    "chk_simulate": "list sim_inst * outcome * bool", "chk_mgo": "list (option (list nat)) * option nat * outcome * bool",
+    "chk_cog": "list nat * outcome * bool",
+}
+
+
 def make_case(K, cls, desc):
     a, impl = K.run(desc)
     return dict(kind=K.name, cls=cls, desc=desc, abs=a, impl=impl)
@@ -1715,8 +1734,8 @@ def make_case(K, cls, desc):
 
 def generate(rng, tier, outdir):
     np.random.seed(int(rng.integers(0, 2**31 - 1)))      # generate_cutting_experiments samples from the global state
-    w = CaseWriter(outdir, IMPORTS)
-    mult = 1 if tier == "quick" else 12
+    w = CaseWriter(outdir, IMPORTS, case_types=CASE_TYPES)
+    mult = 2 if tier == "quick" else 24
     q = lambda n: n * mult  # noqa: E731
     known = known_ids()
     for name in ORDER:
